@@ -162,6 +162,7 @@ func (l *peerLedger) ClearPeerWantlist(p peer.ID) {
 	for c := range cids {
 		l.removePeerFromCid(p, c)
 	}
+	clear(cids)
 }
 
 func (l *peerLedger) PeerDisconnected(p peer.ID) {
